@@ -55,7 +55,14 @@ pub struct MalPacket {
 
 #[derive(Clone, Debug, PartialEq, Eq, Hash, Serialize, Deserialize)]
 pub enum Answer {
-    Honest { plan: Vec<PlanOp> },
+    Honest {
+        plan: Vec<PlanOp>,
+        /// the request reaches the responder a second time (a retransmission) after these records were
+        /// added to its table: it answers again, possibly with another split and total; the first
+        /// answer loses its last packet, then the second answer arrives
+        #[serde(default)]
+        again: Option<Vec<(u16, u16)>>,
+    },
     Malicious { packets: Vec<MalPacket> },
     /// more packets than the cap, each with one valid record
     Flood { n: u8 },
@@ -259,7 +266,7 @@ async fn run(case: &Case, rep: &mut CaseReport) -> Option<(String, String)> {
     let mut honest_records: Vec<Enr> = Vec::new();
     let mut packets_total = 0usize;
     match &case.answer {
-        Answer::Honest { plan } => {
+        Answer::Honest { plan, again } => {
             honest = true;
             let mut r = Svc::new(SvcConfig { key_idx: P_KEY, ..Default::default() }).await;
             for (k, size) in &case.r_entries {
@@ -273,7 +280,7 @@ async fn run(case: &Case, rep: &mut CaseReport) -> Option<(String, String)> {
                 Box::new(Request { id: rid.clone(), body: RequestBody::FindNode { distances: ds.clone() } }),
             ))
             .await;
-            let resps: Vec<Response> = r
+            let mut resps: Vec<Response> = r
                 .take_outbox()
                 .into_iter()
                 .filter_map(|m| match m {
@@ -281,6 +288,33 @@ async fn run(case: &Case, rep: &mut CaseReport) -> Option<(String, String)> {
                     _ => None,
                 })
                 .collect();
+            let first_len = resps.len();
+            if let Some(more) = again {
+                for (k, size) in more {
+                    let key = 2 + (*k as u32 % 300);
+                    let _ = r.d.add_enr(keys::padded_record(key, 1, *size));
+                }
+                r.inject(HandlerOut::Request(
+                    NodeAddress::new(q.addr4, q.node_id()),
+                    Box::new(Request { id: rid.clone(), body: RequestBody::FindNode { distances: ds.clone() } }),
+                ))
+                .await;
+                let second: Vec<Response> = r
+                    .take_outbox()
+                    .into_iter()
+                    .filter_map(|m| match m {
+                        HandlerIn::Response(_, resp) => Some(*resp),
+                        _ => None,
+                    })
+                    .collect();
+                rep.class("honest-answered-twice(retransmitted request)");
+                let t = |x: &Response| if let ResponseBody::Nodes { total, .. } = &x.body { *total } else { 0 };
+                if first_len >= 2 && second.first().map(t) != resps.first().map(t) {
+                    rep.class("honest-answered-twice/with-different-totals");
+                    rep.nontrivial = true;
+                }
+                resps.extend(second);
+            }
             packets_total = resps.len();
             for x in &resps {
                 if let ResponseBody::Nodes { nodes, .. } = &x.body {
@@ -288,6 +322,9 @@ async fn run(case: &Case, rep: &mut CaseReport) -> Option<(String, String)> {
                 }
             }
             let mut order: Vec<usize> = (0..resps.len()).collect();
+            if again.is_some() && first_len >= 2 {
+                order.remove(first_len - 1);
+            }
             for op in plan {
                 if order.is_empty() {
                     break;
@@ -308,7 +345,7 @@ async fn run(case: &Case, rep: &mut CaseReport) -> Option<(String, String)> {
             }
             let distinct: HashSet<usize> = order.iter().copied().collect();
             // complete and duplicate-free (a duplicate may complete the request before the last packet)
-            all_delivered = distinct.len() == resps.len() && order.len() == resps.len();
+            all_delivered = distinct.len() == resps.len() && order.len() == resps.len() && again.is_none();
             deliveries = order.into_iter().map(|i| resps[i].clone()).collect();
             if !plan.is_empty() {
                 rep.class("honest-with-loss/dup/reorder");
@@ -594,7 +631,8 @@ impl Property for C11 {
             0..4,
         );
         let answer = prop_oneof![
-            5 => prop_oneof![3 => Just(vec![]), 2 => plan].prop_map(|plan| Answer::Honest { plan }),
+            5 => prop_oneof![3 => Just(vec![]), 2 => plan.clone()].prop_map(|plan| Answer::Honest { plan, again: None }),
+            2 => (prop_oneof![2 => Just(vec![]), 1 => plan], proptest::collection::vec((any::<u16>(), prop_oneof![3 => Just(300u16), 1 => 100u16..=300]), 1..12)).prop_map(|(plan, more)| Answer::Honest { plan, again: Some(more) }),
             4 => proptest::collection::vec(mal_packet(), 1..5).prop_map(|packets| Answer::Malicious { packets }),
             1 => (16u8..40).prop_map(|n| Answer::Flood { n }),
             1 => (prop_oneof![3 => Just(true), 1 => Just(false)], proptest::collection::vec(any::<u16>(), 0..3)).prop_map(|(off, picks)| Answer::AfterLookupEnd { off, picks }),
@@ -620,7 +658,7 @@ impl Property for C11 {
                     class,
                     pat: (class % 7) as u8,
                     r_entries: (0..40u16).map(|i| (i * 7 + class, 300)).collect(),
-                    answer: Answer::Honest { plan: vec![] },
+                    answer: Answer::Honest { plan: vec![], again: None },
                     extras: vec![],
                     ban_cfg: (class % 3) as u8,
                     q_cfg: (class % 8) as u8,
@@ -639,7 +677,7 @@ impl Property for C11 {
         rep
     }
     fn rule() -> String {
-        "requester Q (real service, scripted handler) with peer P in its table starts find_node(T) with T = P.id XOR d for EVERY log2 class 0..256 of d (low-bit patterns varied); the FINDNODE Q generates is read off the scripted channel. Honest answers come from a second real service R whose local record is P's and whose table holds 0..79 pool records (100..300 bytes): Q's request is injected into R and R's NODES packets - whatever split and total R chooses - are carried back unchanged, complete or with loss / duplication / reordering (incomplete requests are timed out by the scripted transport). Malicious answers are built by the harness: records at unrequested distances, Q's own record, P's own record, duplicates, totals in {0,1,2,15,16,17,2^32,2^64-1, consistent}, floods of 16..39 packets, packets after completion. Oracle: every Discovered record is at a requested distance from the responder (its own record counting as 0); a complete honest answer loses no record; an honest responder is never in the ban list; a processed off-distance record bans the responder (id and IP); records only carried by packets beyond the 15th or after completion have no effect; packets after completion change neither events, bans nor table. Non-trivial = the request contains 0 together with other distances, or the answer has >=2 packets, or packets follow completion.".into()
+        "requester Q (real service, scripted handler) with peer P in its table starts find_node(T) with T = P.id XOR d for EVERY log2 class 0..256 of d (low-bit patterns varied); the FINDNODE Q generates is read off the scripted channel. Honest answers come from a second real service R whose local record is P's and whose table holds 0..79 pool records (100..300 bytes): Q's request is injected into R and R's NODES packets - whatever split and total R chooses - are carried back unchanged, complete or with loss / duplication / reordering (incomplete requests are timed out by the scripted transport); in one case in 6 the request reaches R a second time after 1..11 records were added to its table (a retransmission): the first answer loses its last packet and the second answer - possibly announcing another total - follows. Malicious answers are built by the harness: records at unrequested distances, Q's own record, P's own record, duplicates, totals in {0,1,2,15,16,17,2^32,2^64-1, consistent}, floods of 16..39 packets, packets after completion. Oracle: every Discovered record is at a requested distance from the responder (its own record counting as 0); a complete honest answer loses no record; an honest responder is never in the ban list; a processed off-distance record bans the responder (id and IP); records only carried by packets beyond the 15th or after completion have no effect; packets after completion change neither events, bans nor table. Non-trivial = the request contains 0 together with other distances, or the answer has >=2 packets, or packets follow completion.".into()
     }
     fn assumptions() -> Vec<String> {
         vec![
